@@ -47,8 +47,12 @@ def _validators():
     return {"Plain": Validator(), "Subst": SubstitutorValidator()}
 
 
-def _observe_validate(s, validator, v):
+def _observe_validate(s, validator, v, root=None):
+    """root: name of an explicitly passed (empty) path, as validate(s, v, path=PathHolder(root)) does"""
     try:
+        if root is not None:
+            from th import PathHolder
+            return "ok", list(s.__accept__(validator, value=v, path=PathHolder(root)).get_errors())
         return "ok", list(s.__accept__(validator, value=v).get_errors())
     except Exception as e:  # noqa
         return "raise", e
@@ -61,7 +65,7 @@ def _describe(errors, fmt):
             msg = e.format(fmt)
         except Exception as ex:  # noqa
             msg = f"<format raised {type(ex).__name__}>"
-        out.append((type(e).__name__, [op.operand for op in e.path], e.actual_value, msg))
+        out.append((type(e).__name__, [op.operand for op in e.path], e.actual_value, msg + " @" + str(e.path)))
     return out
 
 
@@ -205,9 +209,10 @@ def run(ctx):
                 for mode in (("Plain", "Subst") if r.random() < 0.5 else ("Plain",)):
                     evaluations += 1
                     oracle_cases += 1
-                    kw, pw = _observe_validate(w, validators[mode], v)
-                    ku, pu = _observe_validate(u, validators[mode], v)
-                    rp = dict(base, op="validate", mode=mode, value=gen.vsrc(v), origin=origin)
+                    root = "root" if r.random() < 0.3 else None      # a caller-supplied empty path with its own root name
+                    kw, pw = _observe_validate(w, validators[mode], v, root)
+                    ku, pu = _observe_validate(u, validators[mode], v, root)
+                    rp = dict(base, op="validate", mode=mode, value=gen.vsrc(v), origin=origin, path_root=root)
                     if kw != ku:
                         violation("validation through the custom type " +
                                   ("raises" if kw == "raise" else "returns") + ", the built-in tree does not",
@@ -283,6 +288,7 @@ def run(ctx):
                 svals.append((origin, v))
                 if isinstance(v, (list, dict)) and r.random() < 0.5:
                     svals.append(("ellipsis", _inject_ellipsis(r, v)))
+            svals.append(("ellipsis-root", ...))          # the placeholder itself as the whole value
             for origin, v in svals:
                 evaluations += 1
                 oracle_cases += 1
